@@ -377,8 +377,13 @@ def run_case(case, rec):
                 steps.append(("copy", target_kind, side_name))
                 rec.see("steps:copy")
                 n_copy += 1
+                # copy options: the partner comes along whatever the options
+                opts = rng.choice([{}, {}, {"clear_cache": True}, {"copy_children": False}, {"clear_cache": True, "copy_children": False}])
+                if opts:
+                    target_kind += ":" + "+".join(sorted(opts))
+                    rec.see("copy-options:" + "+".join(sorted(opts)))
                 try:
-                    new = src.copy(parent=target) if target is not None else src.copy()
+                    new = src.copy(parent=target, **opts) if target is not None else src.copy(**opts)
                 except Exception as exc:  # noqa: BLE001
                     if not exc_origin(exc)[0]:
                         raise
